@@ -141,15 +141,12 @@ fn mixed(ps: &[Ph]) -> bool {
     singles != 0 && singles != ps.len()
 }
 
-/// the documented order of an unmixed leaf, with the code's tie-break (for messages)
+/// the order the code documents (single characters first, then phrases by frequency and UTF-8 order), for messages
 fn documented_order(ps: &[Ph]) -> Option<Vec<Ph>> {
-    if mixed(ps) {
-        return None;
-    }
-    let mut v = ps.to_vec();
-    if ps.iter().all(|p| p.text.chars().count() != 1) {
-        v.sort_by(|a, b| b.freq.cmp(&a.freq).then_with(|| b.text.cmp(&a.text)));
-    }
+    let mut v: Vec<Ph> = ps.iter().filter(|p| p.text.chars().count() == 1).cloned().collect();
+    let mut m: Vec<Ph> = ps.iter().filter(|p| p.text.chars().count() != 1).cloned().collect();
+    m.sort_by(|a, b| b.freq.cmp(&a.freq).then_with(|| b.text.cmp(&a.text)));
+    v.extend(m);
     Some(v)
 }
 
@@ -162,19 +159,17 @@ fn same_multiset(a: &[Ph], b: &[Ph]) -> bool {
 }
 
 /// `got` is exactly the inserted phrases `exp` (insertion order), in the documented order:
-/// single characters keep insertion order, multi-character phrases by descending frequency
+/// the single characters keep insertion order, the multi-character phrases are by descending
+/// frequency (as subsequences; in a mixed leaf the single characters come first)
 fn leaf_ok(got: &[Ph], exp: &[Ph]) -> bool {
     if !same_multiset(got, exp) {
         return false;
     }
-    let singles = exp.iter().filter(|p| p.text.chars().count() == 1).count();
-    if singles == exp.len() {
-        got == exp
-    } else if singles == 0 {
-        got.windows(2).all(|w| w[0].freq >= w[1].freq)
-    } else {
-        true
-    }
+    let single = |p: &&Ph| p.text.chars().count() == 1;
+    let gs: Vec<&Ph> = got.iter().filter(single).collect();
+    let es: Vec<&Ph> = exp.iter().filter(single).collect();
+    let gm: Vec<&Ph> = got.iter().filter(|p| !single(p)).collect();
+    gs == es && gm.windows(2).all(|w| w[0].freq >= w[1].freq)
 }
 
 /// does `got` equal the concatenation of the groups, each in its documented order?
@@ -596,9 +591,6 @@ fn gen_case(rng: &mut Rng, size_class: u64) -> Case {
     } as usize;
     let mut keys: Vec<Vec<u16>> = vec![];
     let mut ents: Vec<Ent> = vec![];
-    // leaves that mix single characters with longer phrases are kept at ≤ 20 phrases (see the model's
-    // note on `sort_by`): count per key
-    let mut per_key: BTreeMap<Vec<u16>, (usize, usize, usize)> = BTreeMap::new(); // total, singles, multis
     while ents.len() < max_entries {
         // key: new, an existing one (homophones / re-insert), a prefix or an extension of one
         let key: Vec<u16> = if keys.is_empty() || rng.chance(1, 3) {
@@ -645,13 +637,6 @@ fn gen_case(rng: &mut Rng, size_class: u64) -> Case {
             };
             gen_text(rng, n)
         };
-        let c = per_key.entry(key.clone()).or_default();
-        let single = text.chars().count() == 1;
-        let (s2, m2) = if single { (c.1 + 1, c.2) } else { (c.1, c.2 + 1) };
-        if s2 > 0 && m2 > 0 && c.0 + 1 > 20 {
-            continue;
-        }
-        *c = (c.0 + 1, s2, m2);
         ents.push(Ent { key, ph: Ph { text, freq: gen_freq(rng), ts: gen_ts(rng) } });
     }
     let info = if rng.chance(1, 3) {
@@ -662,21 +647,23 @@ fn gen_case(rng: &mut Rng, size_class: u64) -> Case {
     Case { info, ents }
 }
 
-/// one key with many homophones: > 20 phrases in one leaf (all single or all multi-character),
-/// encoded leaf of ≥ 128 / ≥ 256 bytes
+/// one key with many homophones: > 20 phrases in one leaf (all single characters, all longer phrases, or
+/// both kinds mixed — std's sort leaves insertion sort above 20 elements), encoded leaf of ≥ 128 / ≥ 256 bytes
 fn gen_big_leaf(rng: &mut Rng) -> Case {
     let pool = syl_pool(rng);
     let klen = 1 + rng.below(3) as usize;
     let key: Vec<u16> = (0..klen).map(|_| *rng.pick(&pool)).collect();
     let n = 21 + rng.below(15) as usize;
-    let single = rng.chance(1, 2);
+    let kind = rng.below(3); // 0 single, 1 multi, 2 mixed
     let mut ents = vec![];
     for i in 0..n {
+        let single = kind == 0 || (kind == 2 && rng.chance(1, 3));
         let text = if single {
             char::from_u32(0x4E00 + (rng.below(40) as u32) + if rng.chance(1, 6) { 0 } else { i as u32 * 41 }).unwrap().to_string()
         } else {
-            let n = 2 + rng.below(2) as usize;
-            gen_text(rng, n)
+            // 0, 2 or 3 characters, 1–4 bytes each: byte lengths below, equal to and above a single character's
+            let n = if rng.chance(1, 12) { 0 } else { 2 + rng.below(2) as usize };
+            if rng.chance(1, 3) { (0..n).map(|_| *rng.pick(&['a', 'é', 'Z', '\u{80}'])).collect() } else { gen_text(rng, n) }
         };
         ents.push(Ent { key: key.clone(), ph: Ph { text, freq: gen_freq(rng), ts: gen_ts(rng) } });
     }
